@@ -23,6 +23,19 @@ CHECKS = {
                      "placement (warning + index correction), 6 pandas index types. Equality is exact. Complete for the stated scope only.",
                 note="Dyadic maps keep float arithmetic exact; the relation's expected index map is the monotone map moving indices with their samples.",
                 ref="3 C03"),
+    "C04": dict(cat="model_checking", tech="explicit-state search over pass histories (first, second x3) of the real HCM detector for all small load sequences, periodic-rainflow reference",
+                text="For every load sequence of length 2..n over a 5-7 level alphabet the history process_hcm_first, process_hcm_second x3 is executed on one live "
+                     "detector; after each transition the recorded hystereses are compared with an independent periodic four-point count, Memory-3 rows are "
+                     "checked for pass and symmetry, later passes must repeat pass 2, every single non-reversal insertion (incl. both sides of the junction) "
+                     "must leave pass 2 unchanged, and a stub law must give the same counting. Every junction class of the quantifier occurs and is counted per class.",
+                note="Periodic four-point count from the largest |load| is taken as the definition of the steady-state cycles; bounded scope.",
+                ref="3 C04"),
+    "C05": dict(cat="exploration", tech="exhaustive enumeration of all small load sequences x law configurations against an independent HCM implementation; all ordered point sets for batches",
+                text="All load sequences of length 2..n over 100*{-2..2} x 6 (law, parameter) configurations are compared column by column (rtol 1e-11) with an "
+                     "independent plain-float implementation of the guideline HCM that calls the same law object; all ordered point sets of size 1..3 over 4 load "
+                     "ratios are compared with single-point runs; every sequence with its negation.",
+                note="Reference in mc/refs/hcm_nonlinear.py is trusted as the reading of the guideline procedure (index-based Clormann-Seeger memory rules).",
+                ref="3 C05"),
 }
 
 NOT_APPLICABLE = []
